@@ -328,6 +328,9 @@ func summarise(side string, got []string) string {
 
 var fetchErrText string
 
+// execLive: the datagram, then a key exchange with the real server. A key exchange that fails
+// while the server process is alive is tried once more on its own (a transport that the
+// datagram made quic-go close stays closed; a handshake lost to machine load does not repeat).
 func execLive(wire []byte) string {
 	ch, err := getChild()
 	if err != nil {
@@ -335,6 +338,17 @@ func execLive(wire []byte) string {
 	}
 	psock.WriteToUDP(wire, &net.UDPAddr{IP: net.IPv4(127, 0, 0, 1), Port: ch.ports["quic"]})
 	time.Sleep(2 * time.Millisecond)
+	ans := keyExchange(ch, 4*time.Second)
+	if strings.HasPrefix(ans, "err") && !ch.dead() {
+		ans = keyExchange(ch, 8*time.Second)
+	}
+	if ans == "err no-answer" && !ch.dead() {
+		ch.kill() // the listener no longer answers (quic-go closed the transport): fresh child for the next op
+	}
+	return ans
+}
+
+func keyExchange(ch *child, wait time.Duration) string {
 	type res struct {
 		d   ntske.Data
 		err error
@@ -365,11 +379,8 @@ func execLive(wire []byte) string {
 		return "ok alive"
 	case <-ch.done:
 		return "panic " + panicClassOf(ch.stderr.String())
-	case <-time.After(4 * time.Second):
-		// the listener no longer answers (quic-go closed the transport): restart the child
-		dead := ch.dead()
-		ch.kill()
-		if dead {
+	case <-time.After(wait):
+		if ch.dead() {
 			return "panic " + panicClassOf(ch.stderr.String())
 		}
 		return "err no-answer"
